@@ -8,8 +8,8 @@ Model of the simulation algorithm `simulate` (property C18).
   src/leaspy/algo/simulate/base.py       BaseSimulationAlgorithm._run (default spacing, Data.from_dataframe)
   src/leaspy/io/data/individual_data.py  IndividualData.add_observations (sorted insertion, overwrite refusal)
 
-The model follows the code *after* the repairs F13 F14 F15 F16 F17 F18 F20 (fixes/*.patch); the defects that are
-kept as findings (F19 F22 F23 F24) are reproduced.
+The model follows the code *after* the repairs F13 F14 F15 F16 F16b F16c F16d (fixes/*.patch); the defects that are
+kept as findings (F16e F16f F16g F16h) are reproduced.
 
 Import-free.  Everything numeric is polymorphic in the number type `α`: the driver runs the very same
 definitions on `Float` (IEEE double, bit-compared with numpy), the theorems are over `Rat` / an ordered field.
@@ -48,10 +48,11 @@ inductive VisitType
   | unknown     -- any other value ("regular", None, …)
   deriving DecidableEq, Repr
 
-/-- one element of the `features` list -/
+/-- one element of the `features` list; `blank` is `not feature.strip()` (computed by the driver:
+    string trimming does not reduce in the kernel) -/
 inductive Feat
   | notStr
-  | str (s : String)
+  | str (s : String) (blank : Bool)
   deriving DecidableEq, Repr
 
 inductive Features
@@ -133,7 +134,7 @@ def checkFeatures : Features → Except Err Unit
   | .list fs =>
     if fs.all (fun f => match f with
       | .notStr => false
-      | .str s => !(s.trimAscii.isEmpty)) then .ok () else .error .algoInput
+      | .str _ blank => !blank) then .ok () else .error .algoInput
 
 /-- `_set_param_study` (runs in `__init__` *before* any validation): reads the keys of the design
     (`dict_param[...]`), and for a table `dict_param["df_visits"].groupby("ID")`. -/
@@ -165,28 +166,43 @@ def checkParamsRandom (d : Design α) : Bool :=
     && meanOk d.followUpMean && stdOk d.followUpStd && meanOk d.distMean && stdOk d.distStd
     && spacingOk d.minSpacing
 
-/-- `SimulationAlgorithm.__init__` = `_set_param_study` then `_validate_algo_parameters`.
-    Everything here happens before `run`, hence before the seed is set and before any draw. -/
-def validate (d : Design α) : Except Err Unit := do
-  -- settings.parameters["visit_parameters"]["visit_type"]
+/-- `_validate_algo_parameters` for the random design, after `_check_features`:
+    `_check_params(requirements)`, then (repaired, F14) `distance_visit_mean <= 0` alone refuses. -/
+def validateRandom (d : Design α) : Except Err Unit :=
+  if checkParamsRandom d && !d.distMean.le0 then .ok () else .error .algoInput
+
+/-- `_validate_algo_parameters` for the table design, after `_check_features`:
+    `("df_visits", pd.DataFrame)`, columns `ID` and `TIME`, no null `TIME`. -/
+def validateTable : Table α → Except Err Unit
+  | .frame idAt timeAt timeNull _ =>
+    if idAt = .column ∧ timeAt = .column ∧ timeNull = false then .ok () else .error .algoInput
+  | _ => .error .algoInput
+
+/-- `SimulationAlgorithm.__init__`: `settings.parameters["visit_parameters"]["visit_type"]`, `_set_param_study`,
+    then `_validate_algo_parameters` (`_check_features` first, "No configuration for this type of visit" for an
+    unknown type).  Everything here happens before `run`, hence before the seed is set and before any draw. -/
+def validate (d : Design α) : Except Err Unit :=
   match d.visitType with
-  | .noDict => throw .typeError
-  | .absent => throw .keyError
-  | _ => pure ()
-  setParamStudy d
-  checkFeatures d.features
-  match d.visitType with
+  | .noDict => .error .typeError
+  | .absent => .error .keyError
+  | .unknown =>
+    match checkFeatures d.features with
+    | .error e => .error e
+    | .ok () => .error .algoInput
   | .random =>
-    if !checkParamsRandom d then throw .algoInput
-    -- repaired (F14): `distance_visit_mean <= 0` alone refuses
-    if d.distMean.le0 then throw .algoInput
+    match setParamStudy d with
+    | .error e => .error e
+    | .ok () =>
+      match checkFeatures d.features with
+      | .error e => .error e
+      | .ok () => validateRandom d
   | .dataframe =>
-    match d.table with
-    | .frame idAt timeAt timeNull _ =>
-      if idAt ≠ .column || timeAt ≠ .column then throw .algoInput
-      if timeNull then throw .algoInput
-    | _ => throw .algoInput          -- `("df_visits", pd.DataFrame)` (unreachable after setParamStudy)
-  | _ => throw .algoInput            -- "No configuration for this type of visit"
+    match setParamStudy d with
+    | .error e => .error e
+    | .ok () =>
+      match checkFeatures d.features with
+      | .error e => .error e
+      | .ok () => validateTable d.table
 
 end Validation
 
@@ -265,6 +281,8 @@ structure NumEnv (α : Type) where
   finest : Nat
   /-- `1 / 365` -/
   defaultSpacing : α
+  /-- neither nan nor ±inf (always true for exact numbers) -/
+  isFinite : α → Bool
 
 /-- round-half-even of `n / d` (`d > 0`): what `rint` does on an exactly known quotient. -/
 def rintFrac (n : Int) (d : Nat) : Int :=
@@ -283,6 +301,7 @@ def ratEnv : NumEnv Rat where
   options := [(0, 1), (1, 1 / 10), (2, 1 / 100), (3, 1 / 1000)]
   finest := 3
   defaultSpacing := 1 / 365
+  isFinite := fun _ => true
 
 /-- `rint` on doubles, written with `floor` (exact for |y| < 2^52: `y - floor y` is computed exactly). -/
 def rintF (y : Float) : Float :=
@@ -302,6 +321,7 @@ def floatEnv : NumEnv Float where
   options := [(0, 1), (1, 0.1), (2, 0.01), (3, 0.001)]
   finest := 3
   defaultSpacing := 1 / 365
+  isFinite := Float.isFinite
 
 section Run
 variable {α : Type} [LT α] [LE α] [DecidableLT α] [DecidableLE α] [Add α] [Neg α] [OfNat α 0]
@@ -347,7 +367,7 @@ structure ModelInfo where
 /-- names of a validated feature list -/
 def Features.names : Features → List String
   | .notList => []
-  | .list fs => fs.filterMap (fun f => match f with | .str s => some s | .notStr => none)
+  | .list fs => fs.filterMap (fun f => match f with | .str s _ => some s | .notStr => none)
 
 /-- `Nodup` as a boolean -/
 def allDistinct {β : Type} [DecidableEq β] : List β → Bool
@@ -380,35 +400,54 @@ def finalizeAll (key : α → Int) : List (String × List α) → Except Err (Li
     let r ← finalizeAll key rest
     pure (⟨i, ks⟩ :: r)
 
+/-- `_run` for a validated random design with `n` individuals at precision `p`.
+    A non-finite age (nan parameters give nan draws, F16h) ends in scipy's "Domain error in arguments". -/
+def runRandom (E : NumEnv α) (p : Nat) (n : Nat) (r : Draws α) : Option (Except Err (List Indiv × Nat)) :=
+  match genAll r.tau r.fv r.fu (List.range n) r.steps with
+  | none => none
+  | some (ages, rest) =>
+    if !(ages.all (fun l => l.all E.isFinite)) then some (.error .valueError) else
+    let named := ((List.range n).zip ages).map (fun x => (toString x.1, x.2))
+    some ((fun out => (out, rest.length)) <$> finalizeAll (E.roundKey p) named)
+
+/-- `_run` for a validated table design (precision `p` is always that of the default spacing). -/
+def runTable (E : NumEnv α) (p : Nat) (rows : List (TId × α)) : Except Err (List Indiv) :=
+  -- F16g: `pd.concat([])` : "No objects to concatenate"
+  if rows.isEmpty then .error .valueError else
+  if !(rows.all (fun r => E.isFinite r.2)) then .error .valueError else
+  finalizeAll (E.roundKey p) ((tableIds rows).map (fun i => (i.toStr, tableAges rows i)))
+
+/-- F16f: `columns=[f"w_{i}" …len(features)]` / `columns=[feat + "_no_noise" …]` against `dimension` values,
+    `df_long.loc[:, feat]` with a repeated name. -/
+def featuresFit (d : Design α) (m : ModelInfo) : Bool :=
+  d.features.names.length = m.dimension && allDistinct d.features.names
+
 /-- `model.simulate(...)`: constructor (validation), then `_run`.
     Returns the rounding precision, the individuals with their final ages, and the number of unused step draws.
-    Failure modes kept as findings: F22 (feature list does not match the model), F23 (empty table),
-    F24 (non-finite numbers). `none` = the supplied step draws ran out (no verdict). -/
+    Failure modes kept as findings: F16f (feature list does not match the model), F16g (empty table),
+    F16h (nan). `none` = the supplied step draws ran out (no verdict). -/
 def run (E : NumEnv α) (d : Design α) (m : ModelInfo) (r : Draws α) :
     Option (Except Err (Nat × List Indiv × Nat)) :=
   match validate d with
   | .error e => some (.error e)
   | .ok () =>
-    -- F24: nan / inf pass every `<` test, and end in scipy's "Domain error in arguments"
-    if !d.drawsFinite then some (.error .valueError) else
-    -- F22: `columns=[f"w_{i}" …len(features)]` / `columns=[feat + "_no_noise" …]` against `dimension` values
-    if d.features.names.length ≠ m.dimension || !allDistinct d.features.names then some (.error .valueError) else
+    if !featuresFit d m then some (.error .valueError) else
     match precisionOfDesign E d with
     | none => some (.error .valueError)   -- unreachable: validated
     | some p =>
-      match d.visitType, d.patientNumber, d.table with
-      | .random, .int n, _ =>
-        match genAll r.tau r.fv r.fu (List.range n.toNat) r.steps with
-        | none => none
-        | some (ages, rest) =>
-          let named := (List.range n.toNat).zip ages |>.map (fun x => (toString x.1, x.2))
-          some ((fun out => (p, out, rest.length)) <$> finalizeAll (E.roundKey p) named)
-      | .dataframe, _, .frame _ _ _ rows =>
-        -- F23: `pd.concat([])` : "No objects to concatenate"
-        if rows.isEmpty then some (.error .valueError) else
-        let named := (tableIds rows).map (fun i => (i.toStr, tableAges rows i))
-        some ((fun out => (p, out, r.steps.length)) <$> finalizeAll (E.roundKey p) named)
-      | _, _, _ => some (.error .valueError)   -- unreachable after validation
+      match d.visitType with
+      | .random =>
+        match d.patientNumber with
+        | .int n =>
+          match runRandom E p n.toNat r with
+          | none => none
+          | some res => some ((fun o => (p, o.1, o.2)) <$> res)
+        | _ => some (.error .valueError)      -- unreachable after validation
+      | .dataframe =>
+        match d.table with
+        | .frame _ _ _ rows => some ((fun out => (p, out, r.steps.length)) <$> runTable E p rows)
+        | _ => some (.error .valueError)      -- unreachable after validation
+      | _ => some (.error .valueError)        -- unreachable after validation
 
 end Run
 
